@@ -21,6 +21,7 @@ import (
 	"github.com/Shopify/sarama"
 	"github.com/grafana/carbon-relay-ng/matcher"
 	"github.com/grafana/carbon-relay-ng/route"
+	"github.com/grafana/carbon-relay-ng/util"
 	"github.com/grafana/metrictank/schema"
 
 	"verifharness/mon"
@@ -158,6 +159,8 @@ func kafkaBatchRun(res *mon.Result, c *schemaCase, file string, idx int, exps []
 	}
 
 	tk("route built")
+	kErr := "dest=" + util.AddrToPath(broker.Addr()) + ".unit=Err.type=flush"
+	d := mon.NewDeltas(kErr)
 	want := 0
 	byTime := map[int64]int{}
 	for k, e := range exps {
@@ -223,8 +226,19 @@ func kafkaBatchRun(res *mon.Result, c *schemaCase, file string, idx int, exps []
 		count := map[int64]int{}
 		for _, rc := range got {
 			if rc.err != "" {
-				// which line it may have been: look for the longest dispatched name inside the bytes
-				res.Violate("kafka-msgp-undecodable:kafkaMdm", fmt.Sprintf("a message the broker received is not one msgp MetricData record (%s): %q", rc.err, rc.raw), w(map[string]interface{}{"message_hex": fmt.Sprintf("%x", rc.raw)}))
+				// name the dispatched line(s) whose name or timestamp can be read in the bytes
+				var in []string
+				for _, e := range exps {
+					if e.valid && len(in) < 3 && (strings.Contains(string(rc.raw), "\xa4Name"+msgpStr(e.name)+"\xa8Interval") || rc.md.Time == e.ts) {
+						in = append(in, strconv.Quote(e.Line))
+					}
+				}
+				raw := rc.raw
+				if len(raw) > 300 {
+					raw = raw[:300]
+				}
+				res.Violate("kafka-msgp-undecodable:kafkaMdm", fmt.Sprintf("a message the broker received is not exactly one msgp MetricData record (%s); dispatched lines recognisable in it: [%s]; bytes: %q", rc.err, strings.Join(in, ", "), raw),
+					w(map[string]interface{}{"message_hex": fmt.Sprintf("%x", rc.raw), "lines_recognised": in}))
 				continue
 			}
 			md := rc.md
@@ -273,6 +287,14 @@ func kafkaBatchRun(res *mon.Result, c *schemaCase, file string, idx int, exps []
 				msg += "; records that arrived more than once instead: " + strings.Join(dups, ", ")
 			}
 			res.Violate("valid-line-missing:kafkaMdm", msg, w(map[string]interface{}{"line": exps[first].Line, "duplicated": dups}))
+		} else if len(dups) > 0 {
+			// The broker acknowledges everything, so neither the route nor sarama has a reason to send a message
+			// again; if the route nevertheless counted a failed flush, a repeated batch is its documented behaviour.
+			if d.Get(kErr) > 0 {
+				loc["kafka_routes_with_flush_retries"]++
+			} else {
+				res.Violate("kafka-record-duplicated:kafkaMdm", fmt.Sprintf("records reached the broker more often than their line was dispatched (no flush failed): %s", strings.Join(dups, ", ")), w(map[string]interface{}{"duplicated": dups}))
+			}
 		}
 		loc["kafka_routes"]++
 		if flushMaxWait >= 3600*1000 {
@@ -300,4 +322,12 @@ func kafkaBatchRun(res *mon.Result, c *schemaCase, file string, idx int, exps []
 	if n := rep.count(); n > 0 {
 		loc["kafka_mock_broker_complaints"] += n
 	}
+}
+
+// msgpStr: a msgp fixstr / str8 as it appears on the wire (enough to recognise a name in a damaged message)
+func msgpStr(s string) string {
+	if len(s) < 32 {
+		return string([]byte{0xa0 | byte(len(s))}) + s
+	}
+	return string([]byte{0xd9, byte(len(s))}) + s
 }
